@@ -215,13 +215,13 @@ pub open spec fn tx_view(t: &BaseTransaction, ks: u64, key: Seq<u8>) -> Option<S
         tx_reads(*old(w), *final(w), self.nonce.instant),
 //@end
 
-//@extract src/tx/write_tx.rs :: BaseTransaction :: commit world desugar_for=0 desugar_for_plain=1 props=C08
+//@extract src/tx/write_tx.rs :: BaseTransaction :: commit world desugar_for=0 desugar_for_plain=1 props=C08+C07
 //@contract
     ensures
         final(w).reads == old(w).reads,
         self.memtables.content@.len() == 0 ==> r is Ok && final(w).committed == old(w).committed, // [C08:empty-write-set-commits-nothing]
         // exactly the final write per key, of every keyspace written, in ONE batch
-        self.memtables.content@.len() > 0 && r is Ok ==> final(w).committed == old(w).committed.push(all_firsts(self.memtables.content@, self.memtables.content@.len() as int)), // [C08:commit-applies-exactly-the-final-write-per-key-in-one-batch]
+        self.memtables.content@.len() > 0 && r is Ok ==> final(w).committed == old(w).committed.push(all_firsts(self.memtables.content@, self.memtables.content@.len() as int)), // [C08:commit-applies-exactly-the-final-write-per-key-in-one-batch] [C07:commit-applies-exactly-the-final-write-per-key-in-one-batch]
         r is Err ==> final(w).committed == old(w).committed, // [C08:failed-commit-applies-nothing]
 //@proof before let mut batch
         let ghost content = self.memtables.content@;
